@@ -32,6 +32,9 @@ CHECKS = {
  "C09": ("E5", "exploration", "property-based testing over generated (dedup | plain) write sequences and dedup-bearing typed placements; byte-exact model of the string table; fault injection on back-references",
          "Write sequences over a six-string alphabet (repeats frequent) in flat streams, containers, version-0 records and evolved records with removed names in their headers (nested, repeated) are encoded and decoded with the same definition; the stream must be byte-identical to the model's (ids from 1 in first-occurrence order, header names first, repeats exactly zigzag(-id)), and corrupted back-references must be InvalidStringId.",
          "Cross-version deduplication is documented as unsupported and not exercised.", "5.9"),
+ "C10": ("E4+E1", "exploration", "exhaustive enumeration of small rooted digraphs + random larger graphs through a safe user codec; byte-exact model, isomorphism oracle with pointer equality, fault injection on reference ids",
+         "All rooted digraphs with <= 4 nodes and out-degree <= 2 (exhaustive) and random graphs up to 60 nodes are encoded through a harness codec that offers node addresses as identities; bytes must match the model, decoding must rebuild an isomorphic graph with sharing restored and distinct nodes distinct, corrupted ids must be InvalidRefId.",
+         "The user codec is the harness's own (safe code, every node alive for the whole call).", "5.10"),
  "C11": ("E4", "exploration", "exhaustive enumeration (thorough: all 2^32 u32 and i32 values) / boundary neighbourhoods + seeded random values against an independent formula",
          "Thorough tier enumerates the complete domain in the release profile; quick tier covers +-4096 around every width boundary, a lattice and random values of every bit length, in both profiles. Oracle: bytes, minimal length, continuation bits, size calculator and read-back through all three inputs.",
          "Reference formula in vmodel::refcodec (LEB128 / zig-zag), independent of desert.", "5.11"),
@@ -47,6 +50,18 @@ CHECKS = {
  "C15": ("E5", "exploration", "property-based testing: one instance to six sinks + size calculator; generated primitive-read op sequences on the three inputs (differential)",
          "Sinks: byte-identical streams or identical errors, exact size. Inputs: op-by-op agreement of SliceInput, OwnedInput and DeserializationContext on generated read sequences with adversarial counts.",
          "A user-defined BinaryOutput of the harness stands for 'any' custom output.", "5.15"),
+ "C16": ("E1", "fault_enumeration", "property-based testing over generated contents x levels x sinks x sources with exhaustive truncation, bit flips and header rewrites under a tracking allocator",
+         "Generated contents (empty, incompressible, repetitive, text-like, up to 256 KiB / 8 MiB) are framed at every level through three sinks, checked against an independent inflate, read back through three sources with a suffix; every truncation is Err; damaged frames never panic and never request more than a bounded multiple of what an independent streaming inflate produces (requests above 3 GiB trap).",
+         "flate2 itself is trusted as the independent decoder.", "5.16"),
+ "C17": ("E4+E1", "exploration", "exhaustive sweep of all Unicode scalar values + property-based testing of unsupported values (non-BMP chars, transient constructors, oversized and lying iterators, unknown field references) against the model's expected error",
+         "Encoding is Ok(bytes == reference) or the documented error, identically through every sink, never an unwind.",
+         "Known finding F14 is excluded by construction and re-exhibited on every run.", "5.17"),
+ "C18": ("E5", "exploration", "stateful property-based testing: generated call histories executed in fresh child processes and compared call-by-call with solo executions; randomized 16-thread first-use stress compared with a single-threaded process",
+         "Histories decide state leaking between calls (string / reference numbering, cached tables, first-use order); the stress half is a probabilistic detector for racy lazy initialisation: interleavings are sampled by the OS, not enumerated.",
+         "Schedules are sampled, not enumerated (no control over std::sync::Once inside lazy_static).", "5.18"),
+ "C19": ("E7+E1", "exploration", "generated safe-only client programs compiled with rustc against the built rlib (compiler verdict as oracle, control twin per witness) + differential fuzzing of the unsafe decode paths against the reference decoder",
+         "A witness grammar (API path x death mode x referent type) produces programs under #![forbid(unsafe_code)]; each must be rejected by the borrow checker while its control compiles. Inputs reaching the unsafe blocks (arrays, byte vectors) are cross-checked against the reference decoder so that content not taken from the input is caught.",
+         "The space of client programs is explored through the grammar only; F15 (store_ref family) is a recorded known finding matched by API path.", "5.19"),
 }
 
 NOT_YET = {
@@ -85,7 +100,8 @@ def main():
             {"name": "E2", "path": "harness/vgen + harness/vcat/src/generated.rs + harness/vcheck/src/props/derived.rs", "serves_properties": ["C02", "C03", "C13", "C14", "C04", "C05", "C06", "C07", "C08"], "kind_free_text": "declarations generated by vgen from a seed, compiled with the real derive macro, each checked against the model interpreter"},
             {"name": "E3", "path": "harness/vcat/src/dynrec.rs", "serves_properties": ["C02", "C03", "C05", "C06", "C09", "C13", "C14"], "kind_free_text": "run-time interpreter of generated declarations driving AdtSerializer/AdtDeserializer like the derive expansion"},
             {"name": "E4", "path": "harness/vcheck/src/props/varint.rs", "serves_properties": ["C11", "C05"], "kind_free_text": "exhaustive enumerators (all 32-bit values; all short byte strings)"},
-            {"name": "E5", "path": "harness/vcheck/src/props/sinks.rs, dedup.rs", "serves_properties": ["C15", "C05", "C09"], "kind_free_text": "generated operation sequences on the BinaryInput implementations, differential"},
+            {"name": "E7", "path": "harness/vcheck/src/props/safety.rs", "serves_properties": ["C19"], "kind_free_text": "witness-program generator; oracle = compiler verdict with a compiling control per witness"},
+            {"name": "E5", "path": "harness/vcheck/src/props/sinks.rs, dedup.rs, isolation.rs", "serves_properties": ["C15", "C05", "C09", "C18"], "kind_free_text": "generated operation sequences on the BinaryInput implementations, differential"},
         ],
         "checks": checks,
         "not_applicable": na,
